@@ -122,6 +122,69 @@ Section Rw.
     pose proof (preservation en Hen _ _ _ _ _ T E) as P.
     destruct Tk as [->|[->| ->]]; destruct v; try discriminate; reflexivity.
   Qed.
+  (* stringsCompare: the five forms *)
+  Definition compare_code (c : comparison) : Z := match c with Eq => 0 | Lt => -1 | Gt => 1 end.
+  Lemma strings_compare_gen o k kz o' s1 s2 :
+    is_cmp o = true -> is_cmp o' = true ->
+    (forall h, evalS en k h = Some (RVal (VInt kz), h)) ->
+    (forall c, cmp_ord o (compare_code c ?= kz)%Z = cmp_ord o' c) ->
+    typeof s1 = Some TString -> typeof s2 = Some TString ->
+    preserves en (rw_compare o k o' s1 s2).
+  Proof.
+    intros Co Co' Hk F T1 T2 h. simpl rw_rhs; simpl rw_lhs.
+    rewrite (eval_cmp_generic en o' _ _ h Co'), (eval_cmp_generic en o _ _ h Co), eval_prim2.
+    destruct (evalS en s1 h) as [[[v1|] h1]|] eqn:E1; simpl; auto.
+    pose proof (preservation en Hen _ _ _ _ _ T1 E1) as P1. destruct v1; try discriminate.
+    destruct (evalS en s2 h1) as [[[v2|] h2]|] eqn:E2; simpl; auto.
+    pose proof (preservation en Hen _ _ _ _ _ T2 E2) as P2. destruct v2; try discriminate.
+    simpl. rewrite (Hk h2). simpl. unfold str_compare. fold (compare_code (String.compare s s0)). rewrite F. reflexivity.
+  Qed.
+
+  Theorem strings_compare_preserves s1 s2 : typeof s1 = Some TString -> typeof s2 = Some TString ->
+    preserves en (rw_compare OEq lit0 OEq s1 s2) /\ preserves en (rw_compare OEq litm1 OLt s1 s2) /\
+    preserves en (rw_compare OLt lit0 OLt s1 s2) /\ preserves en (rw_compare OEq lit1 OGt s1 s2) /\
+    preserves en (rw_compare OGt lit0 OGt s1 s2).
+  Proof.
+    intros T1 T2. repeat split.
+    - apply (strings_compare_gen OEq lit0 0 OEq); auto. intros [| |]; reflexivity.
+    - apply (strings_compare_gen OEq litm1 (-1) OLt); auto. intros [| |]; reflexivity.
+    - apply (strings_compare_gen OLt lit0 0 OLt); auto. intros [| |]; reflexivity.
+    - apply (strings_compare_gen OEq lit1 1 OGt); auto. intros [| |]; reflexivity.
+    - apply (strings_compare_gen OGt lit0 0 OGt); auto. intros [| |]; reflexivity.
+  Qed.
+
+  (* yodaStyleExpr: == and != are symmetric (NaN included) and a literal has no effects *)
+  Lemma cmp_ord_opp o c : (o = OEq \/ o = ONe) -> cmp_ord o (CompOpp c) = cmp_ord o c.
+  Proof. intros [-> | ->]; destruct c; reflexivity. Qed.
+
+  Lemma fl_compare_sym x y : fl_compare y x = option_map CompOpp (fl_compare x y).
+  Proof.
+    destruct x as [|[]|p], y as [|[]|q]; simpl; try reflexivity.
+    rewrite <- QArith_base.Qcompare_antisym. reflexivity.
+  Qed.
+
+  Lemma cmp_val_sym o a b : (o = OEq \/ o = ONe) -> cmp_val o a b = cmp_val o b a.
+  Proof.
+    intros O. destruct a, b; simpl; try reflexivity.
+    - rewrite (Z.compare_antisym z z0). rewrite cmp_ord_opp; auto.
+    - unfold fl_cmp. rewrite (fl_compare_sym f f0). destruct (fl_compare f f0); simpl; [rewrite cmp_ord_opp; auto|].
+      destruct O as [-> | ->]; reflexivity.
+    - rewrite (String.compare_antisym s s0). rewrite cmp_ord_opp; auto.
+    - destruct O as [-> | ->]; destruct b0, b; reflexivity.
+  Qed.
+
+  Theorem yoda_preserves o k s t x : (o = OEq \/ o = ONe) -> typeof (ELit k s t) <> None ->
+    preserves en (rw_yoda o (ELit k s t) x).
+  Proof.
+    intros O T h. simpl rw_rhs; simpl rw_lhs.
+    assert (Co : is_cmp o = true) by (destruct O as [-> | ->]; reflexivity).
+    rewrite !(eval_cmp_generic en o _ _ h Co).
+    simpl in T. unfold lit_type_ok in T. destruct (lit_value k s t) as [vc|] eqn:L; [|congruence].
+    assert (Hc : forall h', evalS en (ELit k s t) h' = Some (RVal vc, h')) by (intros h'; simpl; rewrite L; reflexivity).
+    rewrite (Hc h). simpl.
+    destruct (evalS en x h) as [[[vx|] h1]|]; simpl; auto.
+    rewrite ?L. simpl. rewrite (cmp_val_sym o vc vx O). reflexivity.
+  Qed.
 End Rw.
 
 (* ---- refutations ---- *)
@@ -146,6 +209,38 @@ Proof.
   split; [apply env_of_ok|]. vm_compute. repeat split.
 Qed.
 
+(* ... and it is an equivalence when the glue yields a value without events and independently of the history
+   (a literal, a variable): this is what a `.Pure` filter on $glue buys, up to glue expressions that panic *)
+Definition pure_total (en : env) (g : expr) : Prop := exists v, forall h, evalS en g h = Some (RVal v, h).
+
+Lemma atom_pure_total en g : typeof g <> None ->
+  (exists k s t, g = ELit k s t) \/ (exists n t, g = EIdent n t) -> pure_total en g.
+Proof.
+  intros T [(k & s & t & ->)|(n & t & ->)].
+  - simpl in T. unfold lit_type_ok in T. destruct (lit_value k s t) as [v|] eqn:L; [|congruence].
+    exists v. intros h. simpl. rewrite L. reflexivity.
+  - eexists. reflexivity.
+Qed.
+
+Theorem string_concat_simplify_preserves_partial en x y g :
+  env_ok en -> typeof (rw_lhs (rw_join_glue x y g)) = Some TString -> pure_total en g ->
+  preserves en (rw_join_glue x y g).
+Proof.
+  intros Hen T [vg Hg] h. simpl rw_rhs; simpl rw_lhs. simpl rw_lhs in T.
+  rewrite typeof_call in T. simpl in T.
+  destruct (typeof x) as [tx|] eqn:Tx; [|discriminate]. destruct (typeof y) as [ty0|] eqn:Ty; [|discriminate].
+  destruct (typeof g) as [tg|] eqn:Tg; [|discriminate].
+  destruct tx; try discriminate; destruct ty0; try discriminate; destruct tg; try discriminate.
+  pose proof (preservation en Hen _ _ _ _ _ Tg (Hg [])) as Pg. destruct vg; try discriminate.
+  rewrite evalS_call. simpl.
+  destruct (evalS en x h) as [[[vx|] h1]|] eqn:Ex; simpl; auto.
+  pose proof (preservation en Hen _ _ _ _ _ Tx Ex) as Px. destruct vx; try discriminate.
+  rewrite (Hg h1). simpl.
+  destruct (evalS en y h1) as [[[vy|] h2]|] eqn:Ey; simpl; auto.
+  pose proof (preservation en Hen _ _ _ _ _ Ty Ey) as Py. destruct vy; try discriminate.
+  rewrite (Hg h2). simpl. rewrite app_assoc_s. reflexivity.
+Qed.
+
 (* offBy1's suggestion deliberately changes behaviour ("maybe you wanted"): for a non-empty slice the
    original panics and the suggestion yields the last element *)
 Theorem off_by1_suggestion_differs :
@@ -153,4 +248,16 @@ Theorem off_by1_suggestion_differs :
     eval en (rw_lhs (rw_off_by1 x)) = Some (RPanic, []) /\ eval en (rw_rhs (rw_off_by1 x)) = Some (RVal (VInt 7), []).
 Proof.
   exists (env_of [("xs", VInts [3; 7]%Z)] []), (EIdent "xs" TInts). split; [apply env_of_ok|]. vm_compute. repeat split.
+Qed.
+
+(* newDeref: `*new(T)` is the zero value of T (Go spec: new allocates a zeroed variable); the literal suggested
+   for int / float64 / string has the text ZeroValueOf produces and evaluates, without events, to a value equal
+   to that zero value *)
+Theorem new_deref_zero_literal en t e h :
+  zero_lit t = Some e ->
+  (exists k s, e = ELit k s t /\ zero_value_text "T" (match t with TInt => ZInt | TFloat => ZFloat | _ => ZString end) true = Some s) /\
+  exists v, evalS en e h = Some (RVal v, h) /\ cmp_val OEq v (default_value t) = Some true.
+Proof.
+  destruct t; simpl; intros H; inversion H; subst e; (split; [eexists; eexists; split; reflexivity|]);
+    eexists; (split; [vm_compute; reflexivity|vm_compute; reflexivity]).
 Qed.
